@@ -355,6 +355,8 @@ class EvalMixin(object):
             if isinstance(node.op, ast.And):
                 res = self.ite(t, res, v, st, node)
             else:
+                if isinstance(v, VOpt) and not isinstance(res, (VOpt, VNone)):
+                    v = v.val          # `a or b`: a is returned only when it is truthy, hence not None
                 res = self.ite(t, v, res, st, node)
         return res
 
